@@ -526,7 +526,7 @@ const rule = "Generic stats.InvCDF on (a) rapid-generated user-defined piecewise
 	"ulp either side, 0, 1, outside [0,1]. Oracle = the definition: CDF(x+tau)>=y and CDF(x-tau)<y with tau=1e-9*max(1,|x|), " +
 	"monotone in y, NaN outside, end-point rule at 0 and 1. Dispatch: NormalDist, DeltaDist and a stub must be answered by their " +
 	"own methods bit-for-bit. Rand: draws equal InvCDF(y_i) on a scripted source (zeros injected), KS distance of 50000 draws " +
-	"(thorough up to 1e6) below the DKW 1e-9 bound. Non-trivial: 0<y<1 and (jump or flat stretch present, or built-in). Later additions: discrete distributions (binomial, hypergeometric, U, user-defined lattices on s*N with steps 1e-3..1000) also handed over as DiscreteDist with PMF and Step visible; stubs that are discrete / lack Rand; scripted sources emitting zero words."
+	"(thorough up to 1e6) below the DKW 1e-9 bound. Non-trivial: 0<y<1 and (jump or flat stretch present, or built-in). Later additions: discrete distributions (binomial, hypergeometric, U, user-defined lattices on s*N with steps 1e-3..1000) also handed over as DiscreteDist with PMF and Step visible; stubs that are discrete / lack Rand; scripted sources emitting zero words; user-defined continuous/piecewise distributions reporting infinite, half-infinite or overflowing Bounds."
 
 func drawPW(t *rapid.T) *PW {
 	n := rapid.IntRange(2, 8).Draw(t, "knots")
